@@ -236,6 +236,30 @@ def part_b(gir, r, case):
             r.exc(e, 'build', case, ('B', tuple(gir['rules']), ids))
             continue
         judge_roundtrip(g, ids in ('asc', 'desc'), r, case, ('B', tuple(gir['rules']), ids), nontrivial=True)
+        if ids in ('asc', 'desc'):
+            # a JSON file may list one production twice (it then counts twice): reading it keeps both copies and
+            # writing it again reproduces the file
+            import fggs
+            key = ('B-dup', tuple(gir['rules']), ids)
+            try:
+                j = json.loads(json.dumps(fggs.fgg_to_json(g)))
+                for k in range(len(j['grammar']['rules'])):
+                    j2 = json.loads(json.dumps(j))
+                    j2['grammar']['rules'].insert(k + 1, json.loads(json.dumps(j2['grammar']['rules'][k])))
+                    g2 = fggs.json_to_fgg(j2)
+                    want = {}
+                    for rr in j2['grammar']['rules']:
+                        want[rr['lhs']] = want.get(rr['lhs'], 0) + 1
+                    got = {nt.name: len(g2.rules(nt)) for nt in g2.nonterminals() if len(g2.rules(nt))}
+                    back = fggs.fgg_to_json(g2)
+                    if got != want:
+                        r.bad('roundtrip-differs', 'formats.json_to_hrg', 'duplicate-production', 'file lists rules per lhs %r, json_to_fgg produced %r (rule %d duplicated)' % (want, got, k), case, key + (k,))
+                    elif json.dumps(back, sort_keys=True) != json.dumps(j2, sort_keys=True):
+                        r.bad('roundtrip-differs', 'formats.fgg_to_json/json_to_fgg', 'duplicate-production', 'a file with rule %d listed twice is not reproduced verbatim' % k, case, key + (k,))
+                    else:
+                        r.ok(key + (k,), outcome='dup-ok', nontrivial=True)
+            except Exception as e:
+                r.exc(e, 'duplicate-production', case, key)
 
 
 # ---------------------------------------------------------------------------------------------
